@@ -173,7 +173,8 @@ Fixpoint mon_from (s : list link) (prev : option event) (tr : list event) (i : N
                    if negb (c14 =? 0)%N then c14
                    else match prev with
                         | Some p => if same_call p ev && negb (onat_eqb (res_of p) (o_res o)) &&
-                                       match c_mode cfg with Enhanced => true | Classic => false end
+                                       match c_mode cfg with Enhanced => true | Classic => false end &&
+                                       (0 <? now)      (* 0 is the code's "never" time stamp *)
                                     then 4%N else 0%N
                         | None => 0%N
                         end
